@@ -168,6 +168,9 @@ package tls
 // sizes of at most eight octets.
 //@ func marshalField
 //@ props C09 C04
+//@ ensures [fixed-width-integers-other-than-uint24-always-encode] rtypeOf(v) == uint8Type || rtypeOf(v) == uint16Type || rtypeOf(v) == uint32Type || rtypeOf(v) == uint64Type ==> result == nil
+//@ ensures [a-uint24-encodes-exactly-when-below-2-to-the-24] rtypeOf(v) == uint24Type ==> p24.called || result != nil
+//@ ensures [a-struct-without-fields-encodes-to-nothing] kindOfType(rtypeOf(v)) == reflect.Struct && numFieldsOf(rtypeOf(v)) == 0 ==> result == nil
 //@ modifies nothing
 //@ frame-trusted writes only into the bytes.Buffer it is given and into scratch slices it allocates
 //@ site WriteByte#1 as w8
@@ -186,6 +189,7 @@ package tls
 //@ requires out != nil
 //@ requires info != nil ==> info.count <= 8
 //@ loop 1 invariant info != nil ==> info.count <= 8
+//@ loop 1 invariant 0 <= i && (i == 0 || i <= numFieldsOf(rtypeOf(v))) && (i == 0 ==> (forall k string :: !has(selectorSeen, k)))
 //@ loop 2 invariant info != nil ==> info.count <= 8
 //@ loop 3 invariant 0 <= i && len(bytes) == datalen
 //@ loop 4 invariant 0 <= i && len(bytes) == datalen && (info != nil ==> info.count <= 8)
